@@ -16,7 +16,8 @@ RULE = ("shadow execution: every top-level call of a public callable that has a 
         "a raise mirrored by a raise). Workload: brute-force catalogue over pools with collection shapes (3,),(2,),(2,2),(1,),(1,3),(2,1) in 2D and "
         "3D with every mix of single and collection arguments, plus the repository's tests. Integer indexing / iteration of every collection "
         "class is checked for element class, values and attributes. Non-trivial = the collection call returned normally; distinct by "
-        "(operation, operand digest).")
+        "(operation, operand digest)."
+        " The collection result must be a collection class of the single results' class with index sets shifted by the collection axes; a part of a collection (fewer integers than collection axes, slices, iteration over several axes) must be a collection of the same class with its attributes.")
 SHARDS = (8, 16)
 REQUIRED = ["shadow", "getitem.element", "iter.element"]
 ASSUMPTIONS = ["collection axes align from the right (documented in TensorDiagram.calculate); operand pairs whose shapes do not align are outside the domain"]
